@@ -26,13 +26,19 @@ class ElementProgram:
         if tokenizer is None:
             tokenizer = self.tokenizers[mode]
         tokens = tokenizer(source, filename)
-        parser = ElementParser(
-            tokens, self.DEFAULT_NAMESPACES, self.restricted_namespace
-        )
+
+        if mode == "text":
+            # text has no markup structure: never classify a token by
+            # its first character
+            items = (("text", (token, )) for token in tokens)
+        else:
+            items = ElementParser(
+                tokens, self.DEFAULT_NAMESPACES, self.restricted_namespace
+            )
 
         self.body = []
 
-        for kind, args in parser:
+        for kind, args in items:
             node = self.visit(kind, args)
             if node is not None:
                 self.body.append(node)
